@@ -220,6 +220,38 @@ static void part_typed(unsigned long nrand32)
     }
 }
 
+/* (d2) typed access to byte-stream entries (domain): an entry of exactly the width round-trips, any other width is refused.
+ * Both rules fail on the pinned tree (recorded finding): the domain type answers the size question with min(width, size) and keeps its
+ * transfer offset between typed accesses. */
+static void part_typed_stream(void)
+{
+    static const uint32_t sizes[] = { 1, 2, 4, 3, 5, 100 };
+    for (unsigned si = 0; si < sizeof sizes / sizeof sizes[0]; si++) {
+        uint32_t size = sizes[si];
+        CO_OBJ *root = malloc(sizeof(CO_OBJ) * 2);
+        CO_OBJ_DOM *dom = malloc(sizeof *dom); dom->Size = size; dom->Offset = 0; dom->Start = malloc(size);
+        for (uint32_t i = 0; i < size; i++) dom->Start[i] = (uint8_t)(0x11 * (i + 1));
+        root[0].Key = CO_KEY(0x2100, 0, CO_OBJ_____RW); root[0].Type = CO_TDOMAIN; root[0].Data = (CO_DATA)dom;
+        root[1].Key = 0; root[1].Type = 0; root[1].Data = 0;
+        CO_DICT cod; memset(&cod, 0, sizeof cod);
+        CODictInit(&cod, &Node, root, 2);
+        uint32_t key = CO_DEV(0x2100, 0);
+        uint8_t b = 0; uint16_t w = 0; uint32_t l = 0;
+        CO_ERR eb = CODictRdByte(&cod, key, &b), ew = CODictRdWord(&cod, key, &w), el = CODictRdLong(&cod, key, &l);
+        if ((size != 1 && eb == CO_ERR_NONE) || (size != 2 && ew == CO_ERR_NONE) || (size != 4 && el == CO_ERR_NONE))
+            VIOL("typed/stream-width", "domain of %u bytes: typed read of another width succeeds (byte %d word %d long %d)", size, (int)eb, (int)ew, (int)el);
+        if (size == 4) {
+            uint32_t got = 0xEEEEEEEEu;
+            CO_ERR e1 = CODictWrLong(&cod, key, 0x11223344u), e2 = CODictRdLong(&cod, key, &got);
+            CO_ERR e3 = CODictWrLong(&cod, key, 0x55667788u); uint32_t mem; memcpy(&mem, dom->Start, 4);
+            if (e1 != CO_ERR_NONE || e2 != CO_ERR_NONE || got != 0x11223344u || e3 != CO_ERR_NONE || mem != 0x55667788u)
+                VIOL("typed/stream-roundtrip", "domain of 4 bytes: WrLong(11223344) err %d, RdLong err %d value %x, WrLong(55667788) err %d memory %x", (int)e1, (int)e2, got, (int)e3, mem);
+        }
+        NTyped += 4;
+        free(dom->Start); free(dom); free(root);
+    }
+}
+
 /* (e) buffer access */
 static unsigned long NBuf;
 static void part_buffer(int full)
@@ -340,6 +372,7 @@ int main(int argc, char **argv)
     if (parts & 8) part_typed(n32);
     if (parts & 16) part_buffer(full);
     if (parts & 32) part_chunked();
+    if (parts & 64) part_typed_stream();
     printf("stat dictionaries %lu\nstat lookups %lu\nstat lookups_hit %lu\nstat lookups_miss %lu\nstat init_dictionaries %lu\nstat typed_cases %lu\nstat buffer_cases %lu\nstat chunked_cases %lu\nstat violations %lu\n",
            NDict, NLook, NHit, NMiss, NInitDict, NTyped, NBuf, NChunk, NViol);
     printf("sample small-scope: all 256 subsets of an 8-key universe x 21 probe keys x 4 flag bytes, array of exactly n+1 entries\n");
